@@ -72,12 +72,25 @@ Qed.
 
 (* the error the caller's wait ends with *)
 Lemma caller_error c s l :
-  caller_waits s l \/ (l = LBegin /\ begun s = false /\ cres s = None) ->
+  caller_waits s l ->
   (cctx s = 1 -> cres (step c s l) = Some c_ErrCodeTimeout) /\
   (cctx s = 2 -> cres (step c s l) = Some c_ErrCodeCancelled).
 Proof.
   unfold caller_waits.
-  intros [[F1 [F2 [[[->| ->] F3]|[-> F3]]]]|[-> [F1 F2]]]; split; intros G;
+  intros [F1 [F2 [[[->| ->] F3]|[-> F3]]]]; split; intros G;
+    step_one s; bool_norm; bool_split; bool_norm; subst;
+    try reflexivity; try discriminate; try congruence; try zlia.
+Qed.
+
+(* BeginCall: the remaining-time test comes first (timeout once the deadline has passed, even
+   for a cancelled context), then the context's own error *)
+Lemma begin_error c s :
+  begun s = false -> cres s = None ->
+  (dl_passed s = true -> cres (step c s LBegin) = Some c_ErrCodeTimeout) /\
+  (dl_passed s = false -> cctx s = 2 -> cres (step c s LBegin) = Some c_ErrCodeCancelled) /\
+  (dl_passed s = false -> cctx s = 0 -> begun (step c s LBegin) = true /\ cres (step c s LBegin) = None).
+Proof.
+  intros F1 F2; repeat split; intros;
     step_one s; bool_norm; bool_split; bool_norm; subst;
     try reflexivity; try discriminate; try congruence; try zlia.
 Qed.
@@ -177,7 +190,16 @@ Qed.
 
 Lemma caller_error_run c ls l :
   let s := run c ls in
-  caller_waits s l \/ (l = LBegin /\ begun s = false /\ cres s = None) ->
+  caller_waits s l ->
   (cctx s = 1 -> cres (run c (ls ++ [l])) = Some c_ErrCodeTimeout) /\
   (cctx s = 2 -> cres (run c (ls ++ [l])) = Some c_ErrCodeCancelled).
 Proof. cbv zeta. intros H. rewrite run_snoc. apply caller_error, H. Qed.
+
+Lemma begin_error_run c ls :
+  let s := run c ls in
+  begun s = false -> cres s = None ->
+  (dl_passed s = true -> cres (run c (ls ++ [LBegin])) = Some c_ErrCodeTimeout) /\
+  (dl_passed s = false -> cctx s = 2 -> cres (run c (ls ++ [LBegin])) = Some c_ErrCodeCancelled) /\
+  (dl_passed s = false -> cctx s = 0 ->
+     begun (run c (ls ++ [LBegin])) = true /\ cres (run c (ls ++ [LBegin])) = None).
+Proof. cbv zeta. intros A B. rewrite run_snoc. apply begin_error; assumption. Qed.
